@@ -63,8 +63,13 @@ def graphs(chk, tier, salt):
     r = tlc_ok(tlc("JSightTypes", "Types_sim.cfg", consts={"N": "4", "MaxProps": "3"}, simulate=n, depth=6,
                    tlc_seed=seed() * 17 + salt, workers=4, timeout=900), "JSightTypes")
     chk.add_tlc(r)
+    # ... and types with up to four properties of their own and mostly acyclic inheritance (objects of 13 and more
+    # properties after inheriting)
+    r2 = tlc_ok(tlc("JSightTypes", "Types_sim.cfg", consts={"N": "4", "MaxProps": "6"}, simulate=n // 2, depth=6,
+                    tlc_seed=seed() * 19 + salt, workers=4, timeout=900), "JSightTypes (more properties)")
+    chk.add_tlc(r2)
     seen, res = set(), []
-    for m in r.mbt:
+    for m in r.mbt + r2.mbt:
         k = json.dumps(m["g"], sort_keys=True)
         if k not in seen:
             seen.add(k)
